@@ -24,20 +24,26 @@ macro_rules! prim_shape {
                 let which = s.u8();
                 s.assume(which < 6);
                 let mut r = AseReader::new(&d);
-                if p > 0 {
-                    assert!(r.skip_reserved(p).is_ok(), "skipping available bytes succeeds");
+                // position the cursor at p (concrete skip sizes: a symbolic-size allocation is intractable)
+                let mut k = 0;
+                while k < p {
+                    let b = r.byte();
+                    assert!(b.is_ok(), "reading an available byte succeeds");
+                    core::mem::forget(b);
+                    k += 1;
                 }
                 let rest = $n - p;
                 match which {
-                    0 => { let v = r.byte(); if rest >= 1 { assert!(v.ok() == Some(d[p]), "byte"); } else { assert!(is_eof(&v), "byte at end of input"); } }
-                    1 => { let v = r.word(); if rest >= 2 { assert!(v.ok() == fmt::le_u16(&d, p), "word is little-endian u16"); } else { assert!(is_eof(&v), "short word"); } }
-                    2 => { let v = r.short(); if rest >= 2 { assert!(v.ok() == fmt::le_i16(&d, p), "short is two's-complement little-endian i16"); } else { assert!(is_eof(&v), "short short"); } }
-                    3 => { let v = r.dword(); if rest >= 4 { assert!(v.ok() == fmt::le_u32(&d, p), "dword is little-endian u32"); } else { assert!(is_eof(&v), "short dword"); } }
-                    4 => { let v = r.long(); if rest >= 4 { assert!(v.ok() == fmt::le_i32(&d, p), "long is two's-complement little-endian i32"); } else { assert!(is_eof(&v), "short long"); } }
+                    0 => { let v = r.byte(); if rest >= 1 { assert!(v.as_ref().ok() == Some(&d[p]), "byte"); } else { assert!(is_eof(&v), "byte at end of input"); } core::mem::forget(v); }
+                    1 => { let v = r.word(); if rest >= 2 { assert!(v.as_ref().ok().copied() == fmt::le_u16(&d, p), "word is little-endian u16"); } else { assert!(is_eof(&v), "short word"); } core::mem::forget(v); }
+                    2 => { let v = r.short(); if rest >= 2 { assert!(v.as_ref().ok().copied() == fmt::le_i16(&d, p), "short is two's-complement little-endian i16"); } else { assert!(is_eof(&v), "short short"); } core::mem::forget(v); }
+                    3 => { let v = r.dword(); if rest >= 4 { assert!(v.as_ref().ok().copied() == fmt::le_u32(&d, p), "dword is little-endian u32"); } else { assert!(is_eof(&v), "short dword"); } core::mem::forget(v); }
+                    4 => { let v = r.long(); if rest >= 4 { assert!(v.as_ref().ok().copied() == fmt::le_i32(&d, p), "long is two's-complement little-endian i32"); } else { assert!(is_eof(&v), "short long"); } core::mem::forget(v); }
                     _ => {
                         let mut buf = [0u8; 3];
                         let v = r.read_exact(&mut buf);
                         if rest >= 3 { assert!(v.is_ok() && buf[..] == d[p..p + 3], "read_exact copies exactly the next bytes"); } else { assert!(is_eof(&v), "short read_exact"); }
+                        core::mem::forget(v);
                     }
                 }
                 // the cursor advanced by exactly the field width on success: the next byte read is d[p+w]
@@ -61,35 +67,41 @@ crate::verif_harness! {
         assert!(r.dword().ok() == fmt::le_u32(&d, 2), "dword follows the word");
         assert!(r.byte().ok() == Some(d[6]), "byte follows the dword");
         assert!(r.short().ok() == fmt::le_i16(&d, 7), "short follows the byte");
-        assert!(is_eof(&r.byte()), "end of input is an error value");
+        let last = r.byte();
+        assert!(is_eof(&last), "end of input is an error value");
+        core::mem::forget(last);
     }
 }
 
 macro_rules! string_shape {
-    ($hname:ident, $n:expr, $u:expr) => {
+    ($hname:ident, $n:expr, $u:expr, [$($len:expr),*]) => {
         crate::verif_harness! {
             /// string(): length-prefixed; Ok(text) iff the declared bytes are present and valid UTF-8;
-            /// InvalidInput for invalid UTF-8, IoError(UnexpectedEof) for missing bytes.
+            /// InvalidInput for invalid UTF-8, IoError(UnexpectedEof) for missing bytes. The length field is
+            /// one of the listed values, the text bytes are symbolic.
             #[kani::stub(std::fmt::format, crate::verif_spec::stubs::format_stub)]
             #[kani::unwind($u)]
             fn $hname(s) {
-                let d: [u8; $n] = s.bytes();
-                let mut r = AseReader::new(&d);
-                let got = r.string();
-                match fmt::string_at(&d, 0) {
-                    None => assert!(is_eof(&got), "declared length exceeds the data: end-of-input error"),
-                    Some((a, b, _)) => {
-                        if fmt::utf8_ok(&d, a, b) {
-                            assert!(got.map_or(false, |t| t.as_bytes() == &d[a..b]), "the stored text");
-                        } else {
-                            assert!(matches!(got, Err(AsepriteParseError::InvalidInput(_))), "invalid UTF-8 is InvalidInput");
+                let mut d: [u8; $n] = s.bytes();
+                $(
+                    crate::verif_spec::pin16(&mut d, 0, $len);
+                    let mut r = AseReader::new(&d);
+                    let got = r.string();
+                    match fmt::string_at(&d, 0) {
+                        None => assert!(is_eof(&got), "declared length exceeds the data: end-of-input error"),
+                        Some((a, b, _)) => {
+                            if fmt::utf8_ok(&d, a, b) {
+                                assert!(got.as_ref().map_or(false, |t| t.as_bytes() == &d[a..b]), "the stored text");
+                            } else {
+                                assert!(matches!(got, Err(AsepriteParseError::InvalidInput(_))), "invalid UTF-8 is InvalidInput");
+                            }
                         }
                     }
-                }
+                    core::mem::forget(got);
+                )*
             }
         }
     };
 }
-string_shape!(k_reader_string_5, 5, 5);
-string_shape!(k_reader_string_2, 2, 3);
-string_shape!(k_reader_string_1, 1, 3);
+string_shape!(k_reader_string_6, 6, 7, [4, 3, 0, 5, 0xffff]);
+string_shape!(k_reader_string_1, 1, 3, [0]);
